@@ -277,7 +277,7 @@ impl<'a> Ex<'a> {
                         Out::Val(_) => {
                             // entry offset unknown here: the name index is the first word of the k-th in-use entry;
                             // only call name() when every entry's name index is a known offset
-                            (0..n.min(64)).all(|i| {
+                            (0..n.min(4096)).all(|i| {
                                 let o = 20 + (i * es) as usize;
                                 o + 4 <= tagb.len() && gen::names().names.iter().any(|x| x.0 == le32(tagb, o))
                             })
